@@ -163,6 +163,11 @@ impl<'l> Uf2Write<'l>
 			{
 				return Err(WriteError::Overflow{need: block.len(), have: self.block_size});
 			}
+			// same bound as `write_all`: the final count must also be storable
+			if self.count == u32::MAX
+			{
+				return Err(WriteError::BlockCount{need: 1, have: 0});
+			}
 			self.dst.check_write(&mut self.pos, BLOCK_LEN)?;
 			self.encode(addr, block, self.block_size as u32, no_flash);
 		}
